@@ -444,7 +444,53 @@ def run(repo: Repo, chk: Check, thorough: bool = False) -> None:
     chk.stats['nested_processing_calls_before_transition'] = len(nested)
     if len(nested) < 1:
         raise AnalysisError('R01.7: no nested processing call precedes the state transition in processModule (1 confirmed: the package, since F64)')
-    chk.require('R01.7', 1)
+    # ... the stack of names being processed: what is popped is compared with what was pushed - ONE evaluation kept in a local.  `mod.fullName()`
+    # evaluated again after the builder ran can differ: a module that is re-exported by a module it imports is renamed while its own frame is active
+    pushes = [c for c in calls_in(pm) if call_name(c) == 'append' and isinstance(c.func, ast.Attribute) and 'processing_modules' in norm(c.func.value) and c.args]
+    asserts_ = [a for a in pm.walk() if isinstance(a, ast.Assert) and isinstance(a.test, ast.Compare) and len(a.test.ops) == 1 and isinstance(a.test.ops[0], ast.Eq) and
+                any(isinstance(x, ast.Name) for x in (a.test.left, a.test.comparators[0])) and
+                any(isinstance(v, ast.Call) and call_name(v) == 'pop' for x in (a.test.left, a.test.comparators[0]) if isinstance(x, ast.Name)
+                    for n_ in pm.walk() if isinstance(n_, ast.Assign) and any(isinstance(t, ast.Name) and t.id == x.id for t in n_.targets) for v in [n_.value])]
+    if not pushes or not asserts_:
+        raise AnalysisError('R01.7: the push / pop-and-compare pair on processing_modules was not found in processModule')
+    pushed = {norm(c.args[0]) for c in pushes}
+    for a in asserts_:
+        other = [x for x in (a.test.left, a.test.comparators[0]) if not (isinstance(x, ast.Name) and any(
+            isinstance(n_, ast.Assign) and isinstance(n_.value, ast.Call) and call_name(n_.value) == 'pop' and any(isinstance(t, ast.Name) and t.id == x.id for t in n_.targets)
+            for n_ in pm.walk()))]
+        okp = bool(other) and all(isinstance(x, ast.Name) and norm(x) in pushed for x in other)
+        chk.ob('R01.7', 'pydoctor.model.System.processModule :: the popped name is compared with the value that was pushed', okp,
+               f'one evaluation, kept in `{norm(other[0])}`' if okp else
+               f'`{norm(a.test)}` evaluates the name of the module again after it was processed: a module that is moved while its own frame is active (circular re-export: '
+               '`pkg/a.py: from .sub import x`, `pkg/sub/__init__.py: from .. import a; __all__ = ["a", "x"]`) fails the assertion and the run aborts', repo.loc(pm.mod, a))
+    # ... invariant behind the asserts at the entry of processModule: a module whose state is UNPROCESSED is in unprocessed_modules.  Every place
+    # that creates a Module / Package either queues it (_addUnprocessedModule) or gives it another state; getProcessedModule() - any import of
+    # that name - would otherwise try to process an object the queue does not hold (`assert mod in self.unprocessed_modules`)
+    mm = repo.mod('pydoctor.model')
+    n_new = 0
+    for f in sorted((g for g in repo.funcs.values() if g.mod is mm), key=lambda g: g.qn):
+        facts_ = {t.id for a_ in f.walk() if isinstance(a_, ast.Assign) and isinstance(a_.value, ast.IfExp) and all(isinstance(x, ast.Attribute) and x.attr in ('Package', 'Module')
+                                                                                                               for x in (a_.value.body, a_.value.orelse))
+                  for t in a_.targets if isinstance(t, ast.Name)}
+        for a_ in f.walk():
+            if not (isinstance(a_, ast.Assign) and isinstance(a_.value, ast.Call) and len(a_.targets) == 1 and isinstance(a_.targets[0], ast.Name)):
+                continue
+            fn_ = a_.value.func
+            creates = (isinstance(fn_, ast.Attribute) and fn_.attr in ('Package', 'Module') and 'system' in norm(fn_.value).lower() or
+                       isinstance(fn_, ast.Attribute) and fn_.attr in ('Package', 'Module') and norm(fn_.value) == 'self') or (isinstance(fn_, ast.Name) and fn_.id in facts_)
+            if not creates:
+                continue
+            n_new += 1
+            v = a_.targets[0].id
+            queued = any(call_name(c) == '_addUnprocessedModule' and c.args and norm(c.args[0]) == v for c in calls_in(f))
+            stated = any(isinstance(n_, ast.Assign) and any(isinstance(t, ast.Attribute) and t.attr == 'state' and norm(t.value) == v for t in n_.targets) for n_ in f.walk())
+            chk.ob('R01.7', f'{f.qn} :: a module that is created is queued, or is not left UNPROCESSED', queued or stated,
+                   'queued through _addUnprocessedModule' if queued else 'given a state of its own' if stated else
+                   f'`{norm(a_)[:60]}` is registered without being queued and keeps the default state UNPROCESSED: `--prepend-package spam` with a source that says '
+                   '`from spam import ham` makes getProcessedModule process it - AssertionError, the run aborts', repo.loc(f.mod, a_))
+    if n_new < 4:
+        raise AnalysisError(f'R01.7: {n_new} module creation sites found in pydoctor.model (4 confirmed)')
+    chk.require('R01.7', 6)
 
 
 def _role(f: Func, c: ast.Call) -> str:
